@@ -72,6 +72,16 @@ theorem codec_escape_format :
     Extracted.escapeNibbles = ["hex[(c>>4)&0xF]", "hex[c&0xF]"] ∧ Extracted.printable.hi < 128 ∧
     Extracted.printable.extra.all (· < 128) = true ∧ Extracted.sanitizeGuard = true := by decide
 
+/-- both loops of `sanitize_non_printable_chars` call the user's `check_printable_char` on every byte, first thing in
+    the loop body (the model's `sanitizeBy`, `C04_sanitize_any_predicate`; a range shortcut before the call is refuted by
+    `C04_sanitize_shortcut_misses`) -/
+theorem codec_sanitize_every_byte : Extracted.sanitizeAsksEveryByte = true := by decide
+
+/-- `Codec<std::set/multiset>::decode_arg` rebuilds the container with the argument type's comparator (`std::less`
+    rebound to the decoded key type, any other comparator kept): the backend iterates it in encode order
+    (`C04_set_view_in_encode_order`; a re-sorting decode is refuted by `C04_resorting_decode_differs`) -/
+theorem codec_set_order : Extracted.setKeepsComparator = true := by decide
+
 theorem codec_events : Extracted.unformattedEvents.all (Extracted.macroEvents.contains ·) = true ∧
     Extracted.macroEvents.contains "Log" = true := by decide
 
